@@ -1,5 +1,5 @@
 """C08 - partitioning heuristics meet their proven worst-case guarantees."""
-from .. import core, scope, drive, gen, models
+from .. import core, scope, drive, gen, models, apalache
 from .common import *
 
 
@@ -26,6 +26,10 @@ def run(ck):
     models.heur_mc(ck, ["greedy", "roundrobin"], ["PartStep", "FinalOK"], maxn=5 if q else 6, maxv=5, maxk=4)
     models.kk_mc_replay(ck, 5 if q else 6, 5, 4)
     models.multifit_mc_replay(ck, 5 if q else 6, 5, 4)
+    # unbounded item values (Apalache, symbolic): the gap bound and the round-robin shape as inductive invariants
+    for K in ((3,) if q else (2, 3, 4, 5)):
+        apalache.inductive(ck, "GreedyInd", {"K": K}, "greedy: max - min <= largest item, any item values, K=%d bins" % K)
+        apalache.inductive(ck, "RoundRobinInd", {"K": K}, "round-robin: sums non-increasing in bin index, cardinalities within one, any item values, K=%d bins" % K, implied=("Shape",))
     P = scope.p_scope(ck, 6, 6, 4) if q else scope.p_scope(ck, 7, 7, 5)
     ck.exhaustive = True
     groups = []
